@@ -297,6 +297,7 @@ static std::vector<MemShape> mem_grid(int mode, const std::string& vsib, int N, 
       s.d = r < 3 ? 0 : nd();
       if (s.bt.empty()) s.d = int64_t(int32_t(s.d)) & 0x7FFFFFFF;
       if (r % 9 == 5) s.sg = 5 + int(r % 2);
+      if (g_gen.cross && r % 9 == 2) s.sg = 1 + int((r / 9) % 4);          // es cs ss ds overrides on VSIB forms as well
       if (r % 11 == 7 && mode == 64) { s.bt = alt; s.b = bases[r % bases.size()]; }
       g.push_back(s);
     }
